@@ -6,6 +6,7 @@ require (
 	github.com/postalsys/muti-metroo v0.0.0
 	golang.org/x/crypto v0.45.0
 	golang.org/x/net v0.47.0
+	gopkg.in/yaml.v3 v3.0.1
 	nhooyr.io/websocket v1.8.17
 )
 
@@ -20,7 +21,6 @@ require (
 	golang.org/x/term v0.38.0 // indirect
 	golang.org/x/text v0.31.0 // indirect
 	golang.org/x/time v0.5.0 // indirect
-	gopkg.in/yaml.v3 v3.0.1 // indirect
 )
 
 replace github.com/postalsys/muti-metroo => /repo
